@@ -63,7 +63,7 @@ def prof_st():
     })
 
 
-OPS = ["proc_start", "memo_ts_resize",
+OPS = ["proc_start", "memo_ts_resize", "get_cell_interrupted",
        "resize", "resize_px", "swap_on", "swap_off", "q_on", "q_off", "q_on", "q_off", "get_nv", "get_colors", "on_kitty", "ratio_fixed", "ratio_dynamic", "ratio_float",
        "ratio_bad", "get_cell", "get_cell", "get_ratio", "get_colors", "get_nv", "profile", "memo_cached", "memo_ts",
        "inval_cached", "inval_ts", "on_kitty"]
@@ -202,9 +202,11 @@ def check_history(c, rec):
     def fail(msg, sig):
         raise Violation(f"{msg}\n  ops so far: {kinds}\n  win={win} swap={swap} enabled={enabled} profile={prof}", sig)
 
-    def read_cell():
+    _NOVAL = object()
+
+    def read_cell(pre=_NOVAL):
         nonlocal last_cell
-        got = U.get_cell_size()
+        got = U.get_cell_size() if pre is _NOVAL else pre
         got = got and tuple(got)
         ok = {fresh_cell()}
         if last_cell and last_cell[1:] == (win[0], win[1], epoch):
@@ -376,6 +378,20 @@ def check_history(c, rec):
                 if not (last_ok and (last_ok[1] == epoch_q or last_ok[2]) and got == last_ok[0]):
                     last_ok = (got, epoch_q, enabled)
                 computed_while_disabled |= not enabled
+            elif k == "get_cell_interrupted":
+                # Ctrl-C (or any exception) while the cell-size query waits for its reply: the call fails - and must leave
+                # nothing behind that a later call could mistake for a result
+                T.raise_in_select = KeyboardInterrupt()
+                try:
+                    got = U.get_cell_size()
+                except KeyboardInterrupt:
+                    flags.add("query_interrupted")
+                else:
+                    T.raise_in_select = None
+                    read_cell(got)  # no query was needed (ioctl / cache): an ordinary read
+                T.raise_in_select = None
+                T.flush_all()
+                T.unread_bytes()
             elif k == "memo_cached":
                 margs = [tuple(a) if isinstance(a, list) else a for a in o["args"]]  # (replay files hold lists)
                 key = (tuple(margs), tuple(o["kw"].items()))
@@ -385,6 +401,10 @@ def check_history(c, rec):
                 after = counts["cached"].get(key, 0)
                 if after > 1 or after - before > (1 if before == 0 else 0):
                     fail(f"memoized body ran {after} times for arguments {key}", {"kind": "memo_rerun"})
+                if after == 0:
+                    # first call with these arguments since this function was decorated / invalidated: nothing can be memoized
+                    fail(f"memoized call with {key} did not run the body although these arguments were never computed "
+                         f"for this function (got {v!r})", {"kind": "memo_foreign_value"})
                 if v[1:3] != key:
                     fail(f"memoized call with {key} returned the value for {v[1:3]}", {"kind": "memo_wrong_value"})
             elif k == "inval_cached":
